@@ -15,7 +15,7 @@ def cases(draw, ml):
     p = draw(gen.pair_descs(ml))
     out = dict(p, cfg=draw(gen.configs(predicates=PREFIX_PREDICATES)))
     if draw(st.integers(0, 2)) == 0:
-        sub = gen.tree_descs(3, max_depth=2)
+        sub = gen.tree_descs(3, max_depth=2, min_leaves=2)
         c = gen.substitute_leaves(draw, p['b'], sub, at_least_one=True)
         if draw(st.booleans()):
             c = gen.dict_variant(draw, c)
